@@ -252,8 +252,44 @@ def substL (test : Expr → Bool) (other : Expr) : ExprList → M ExprList
   | .cons e es => do let e' ← substE test other e; let es' ← substL test other es; pure (.cons e' es')
 end
 
+mutual
+/-- `replace_var_reference(alias, other)`: child by child; a quantifier that binds `alias` keeps its own occurrences (the rest is
+    `replace` / `reshape` as in `substE`) -/
+def substV (a : String) (other : Expr) : Expr → M Expr
+  | e@(.lit ..) | e@(.this ..) => .ok e
+  | e@(.var _ x) => .ok (if a == x then other else e)
+  | e@(.set t vs) => do
+      let vs' ← substVL a other vs
+      if vs' = vs then pure e else do let vs'' ← castList T.PRIMITIVE vs'; pure (.set t vs'')
+  | e@(.range t lo hi x y) => do
+      let lo' ← substV a other lo; let hi' ← substV a other hi
+      if lo' = lo ∧ hi' = hi then pure e else do
+        let lo'' ← castE lo' T.NUMBER; let hi'' ← castE hi' T.NUMBER; pure (.range t lo'' hi'' x y)
+  | e@(.quant _ q x d b) => if x == a then .ok e else do
+      let d' ← substV a other d; let b' ← substV a other b
+      if d' = d ∧ b' = b then pure e else mkQuant q x d' b'
+  | e@(.un _ op x) => do
+      let x' ← substV a other x
+      if x' = x then pure e else mkUn op x'
+  | e@(.bin _ op x y) => do
+      let x' ← substV a other x; let y' ← substV a other y
+      if x' = x ∧ y' = y then pure e else mkBin op x' y'
+  | e@(.call _ f as) => do
+      let as' ← substVL a other as
+      if as' = as then pure e else mkCall f as'
+  | e@(.field t m n) => do
+      let m' ← substV a other m
+      if m' = m then pure e else mkFieldT t m' n
+  | e@(.index t x i) => do
+      let x' ← substV a other x; let i' ← substV a other i
+      if x' = x ∧ i' = i then pure e else mkIndexT t x' i'
+def substVL (a : String) (other : Expr) : ExprList → M ExprList
+  | .nil => .ok .nil
+  | .cons e es => do let e' ← substV a other e; let es' ← substVL a other es; pure (.cons e' es')
+end
+
 /-- `replace_var_reference(alias, other)` -/
-def Expr.replaceVar (e : Expr) (a : String) (other : Expr) : M Expr := substE (isVarNamed a) other e
+def Expr.replaceVar (e : Expr) (a : String) (other : Expr) : M Expr := substV a other e
 /-- `replace_self_reference(other)` -/
 def Expr.replaceSelf (e : Expr) (other : Expr) : M Expr := substE isThis other e
 
